@@ -413,6 +413,7 @@ static void report (void)
 int main (int argc, char **argv)
 {
     vf_init (argc, argv, "C15", "fault_enumeration");
+    vf_quick_is_deep();      /* the larger alphabets complete in well under a minute: the quick tier uses them too */
     int th = vf_is_thorough ();
     PAIRLIM = th ? MAXN : 12;
     fi_setup ();
